@@ -188,9 +188,22 @@ def strip_comments(text):
 FORBIDDEN = re.compile(r'\bsorry\b|\badmit\b|^\s*axiom\s|\bnative_decide\b|\bbv_decide\b|implemented_by|\bunsafe\s|maxHeartbeats\s+0\b', re.M)
 
 
+def library_files():
+    """the modules the library root imports, transitively (files not imported by Pm.lean are not part of the library)"""
+    seen = {}
+    todo = [os.path.join(LEAN, 'Pm.lean')]
+    while todo:
+        f = todo.pop()
+        if f in seen or not os.path.exists(f): continue
+        seen[f] = True
+        for m in re.finditer(r'^\s*import\s+(Pm(?:\.\w+)+)', open(f).read(), re.M):
+            todo.append(os.path.join(LEAN, *m.group(1).split('.')) + '.lean')
+    return list(seen)
+
+
 def grep_forbidden():
     hits = []
-    for p in glob.glob(os.path.join(LEAN, 'Pm', '**', '*.lean'), recursive=True) + [os.path.join(LEAN, 'Pm.lean')]:
+    for p in library_files():
         t = strip_comments(open(p).read())
         # string literals may legitimately contain the words; drop them
         t = re.sub(r'"(\\.|[^"\\])*"', '""', t)
